@@ -1607,6 +1607,15 @@ def __analyse_class(
 
     try:
         methods_with_names = inspect.getmembers(type_info.raw_type, inspect.isfunction)
+        if isinstance(type_info.raw_type, enum.EnumMeta):
+            # dir() of an enum class does not list the methods the class defines.
+            known = {name for name, _ in methods_with_names}
+            methods_with_names += [
+                (name, member)
+                for name in vars(type_info.raw_type)
+                if name not in known
+                and inspect.isfunction(member := getattr(type_info.raw_type, name, None))
+            ]
     except Exception as ex:  # noqa: BLE001
         LOGGER.error("Could not get members for class %s: %s", type_info.full_name, str(ex))
         return
